@@ -3,7 +3,7 @@ CONSTANTS MaxPre = 1 MaxN = 5
   PreAlphabet <- AlphaFull
   Accs <- AccsAll
   Posts <- PostsMid
-  FlowKinds = {"bare", "pairs", "ctx"}
+  FlowKinds = {"bare", "ctx"}
   Drivers = {"fill"}
   Places = {"alone"}
   StopFlag = "per_branch"
